@@ -3,12 +3,10 @@ From Coq Require Import List ZArith NArith Bool.
 From Scalibr Require Import Writers.GoBytes Writers.PomProps Writers.PomPropsProofs Writers.PomWriter.
 Import ListNotations.
 
-Lemma write_panics_false_on_D pairs :
-  forallb (fun p => d_total (fst p) (snd p)) pairs = true -> write_panics pairs = false.
+Lemma write_never_panics pairs : write_panics pairs = false.
 Proof.
   unfold write_panics. induction pairs as [|p r IH]; simpl; auto.
-  intros H. apply andb_true_iff in H as [H1 H2]. rewrite (IH H2), orb_false_r.
-  unfold pair_panics, is_panic.
-  pose proof (prop_patches_total_on_D_lemma _ _ H1) as Hn.
+  rewrite IH, orb_false_r. unfold pair_panics, is_panic.
+  pose proof (prop_patches_total_lemma (fst p) (snd p)) as Hn.
   destruct (generate_property_patches (fst p) (snd p)); auto. contradiction.
 Qed.
